@@ -36,13 +36,14 @@ CHECKS["C02"] = dict(
     text="Lean theorems (1) for the bump-stack allocation path shared by static_allocator, memory_stack (allocate and try_allocate, "
          "incl. growth), iteration_allocator, joint stack and collection carving: a served request is aligned for every power-of-two "
          "alignment, has its fences, size bytes inside [top, end], and a fitting request is never refused; guards and align_offset are "
-         "regenerated from the source by the translator. (2) for memory_pool over the unordered and the ordered free list, all histories: "
-         "conservation - free cells + cells of live allocations are exactly the cells the blocks were cut into - hence every live address "
-         "sits on the node grid of one block after any amount of growth, is aligned to alignment_for(node_size) (blocks "
-         "max_alignment-aligned), a node is one whole cell, an array of n nodes is n consecutive cells of one block (element i at "
-         "base + i*node_size). Small-node pools and collections: alignment, size, contiguity and usability checked by oracles on the real "
-         "code over seeded histories (model correspondence for addresses).",
-    note="partial: small-node pools and collections at correspondence + oracle level; over-aligned requests are rejected by pools (C03).",
+         "regenerated from the source by the translator. (2) for memory_pool over all three free lists, all histories: conservation - "
+         "free cells + cells of live allocations are exactly the cells the blocks were cut into - hence every live address sits on the "
+         "node grid of one block (intrusive lists) / of one chunk (small list: usable start + i*stride + header + idx*node_size) after any "
+         "amount of growth and is aligned to alignment_for(node_size) (blocks max_alignment-aligned; alignment_for divides node size, "
+         "max_alignment, the chunk header and the chunk stride); a node is one whole cell, an array of n nodes is n consecutive cells of "
+         "one block (element i at base + i*node_size). Collections: alignment, size, contiguity and usability checked by oracles on the "
+         "real code over seeded histories (model correspondence for addresses).",
+    note="partial: collections at correspondence + oracle level; over-aligned requests are rejected by pools (C03).",
     technique="Lean 4 proof over translated guards (stacks) and conservation invariant by induction over histories (pools) + correspondence/oracles")
 CHECKS["C03"] = dict(
     text="Lean theorems over the models of static_allocator, memory_stack, iteration_allocator, memory_pool and memory_pool_collection "
